@@ -15,6 +15,7 @@
 #include "vcommon.hpp"
 #include "ntt_goldilocks.hpp"
 #include "poseidon_goldilocks.hpp"
+#include <thread>
 #ifndef FREE_RUNNING
 #include "teamsched.hpp"
 #endif
@@ -177,8 +178,8 @@ static std::vector<Scn> scenarios(bool th, bool small_only)
 static std::vector<int> team_args(const Scn &s, bool th)
 {
     if (s.kind == K_PARCPY || s.kind == K_PARZERO) return {-1, 0, 1, 2, 3, 64, 101};
-    if (th) return {1, 2, 3, 4, 5, 6, 7, 8, 9, 16, 17};
-    return {1, 2, 3, 4, 5, 8};
+    if (th) return {1, 2, 3, 4, 5, 6, 7, 8, 9, 10, 11, 12, 13, 16, 17, 31, 33};
+    return {1, 2, 3, 4, 5, 6, 7, 8, 11, 13};
 }
 
 #ifdef FREE_RUNNING
@@ -204,6 +205,64 @@ int main(int argc, char **argv)
             }
         }
     printf("STAT free_running_executions %lld\n", runs);
+    // Re-entrancy battery (beyond the letter of C12, no alarm on correct code): the library's static functions
+    // share no state, so concurrent callers on disjoint data must not race and must get the sequential results.
+    {
+        const int NT = 6, REP = args.thorough() ? 400 : 60;
+        auto battery = [&](int id, std::vector<u64> &out) {
+            for (int r = 0; r < REP; r++)
+            {
+                u64 x = (u64)(id + 1) * 0x9E3779B97F4A7C15ULL + (u64)r * 0xD1B54A32D192ED03ULL;
+                E e;
+                e.fe = x;
+                out.push_back((u64)Goldilocks::toS64(e));
+                int32_t s32 = 0;
+                E small = Goldilocks::fromS32((int32_t)(x >> 33) - (1 << 29));
+                out.push_back(Goldilocks::toS32(s32, small) ? (u64)(uint32_t)s32 : 0xBAD);
+                out.push_back(Goldilocks::toU64(e));
+                {
+                    // conversions are cheap: many calls per round so that concurrent callers really overlap
+                    u64 acc = 0;
+                    for (int k = 0; k < 400; k++)
+                    {
+                        E f;
+                        f.fe = x + (u64)k * 0x100000001ULL;
+                        acc = acc * 31 + (u64)Goldilocks::toS64(f);
+                        int32_t t32 = 0;
+                        E g = Goldilocks::fromS32((int32_t)(f.fe >> 34) - (1 << 28));
+                        acc = acc * 31 + (Goldilocks::toS32(t32, g) ? (u64)(uint32_t)t32 : 7);
+                        acc = acc * 31 + (u64)Goldilocks::isOne(f) + 2 * (u64)Goldilocks::isZero(f);
+                    }
+                    out.push_back(acc);
+                }
+                std::string st = Goldilocks::toString(e, 10);
+                out.push_back(Goldilocks::fromString(st, 10).fe);
+                mpz_class z(st);
+                out.push_back(Goldilocks::fromScalar(z - 7).fe);
+                if (x % GP) out.push_back(Goldilocks::toU64(Goldilocks::inv(e)));
+                out.push_back(Goldilocks::toU64(Goldilocks::exp(e, x >> 40)));
+                E st12[12], o12[12];
+                for (int i = 0; i < 12; i++) st12[i].fe = x + i;
+                PoseidonGoldilocks::hash_full_result_seq(o12, st12);
+                out.push_back(o12[0].fe);
+                PoseidonGoldilocks::hash_full_result(o12, st12);
+                out.push_back(o12[5].fe);
+                E in20[20], d4[4];
+                for (int i = 0; i < 20; i++) in20[i].fe = x ^ (u64)i;
+                PoseidonGoldilocks::linear_hash(d4, in20, 20);
+                out.push_back(d4[3].fe);
+            }
+        };
+        std::vector<std::vector<u64>> seq(NT), par(NT);
+        for (int i = 0; i < NT; i++) battery(i, seq[i]);
+        std::vector<std::thread> th;
+        for (int i = 0; i < NT; i++) th.emplace_back([&, i]() { battery(i, par[i]); });
+        for (auto &t : th) t.join();
+        long long mism = 0;
+        for (int i = 0; i < NT; i++) if (seq[i] != par[i]) mism++;
+        printf("STAT reentrancy_threads %d\n", NT);
+        if (mism) printf("REENTRANCY-MISMATCH %lld of %d threads got results that differ from their sequential run\n", mism, NT);
+    }
     return 0;
 }
 #else
@@ -260,13 +319,17 @@ static std::vector<std::vector<int>> orders(int T)
     }
     else
     {
-        for (int r = 0; r < T; r++)
-        {
-            std::vector<int> a(T), b(T);
-            for (int i = 0; i < T; i++) { a[i] = (i + r) % T; b[i] = (T - 1 - i + r) % T; }
-            v.push_back(a);
-            v.push_back(b);
-        }
+        // larger teams: identity, reversed, rotations by 1 and T/2, reflected rotation, odd members first
+        auto rot = [&](int r, bool refl) { std::vector<int> a(T); for (int i = 0; i < T; i++) a[i] = refl ? (T - 1 - i + r) % T : (i + r) % T; return a; };
+        v.push_back(rot(0, false));
+        v.push_back(rot(0, true));
+        v.push_back(rot(1, false));
+        v.push_back(rot(T / 2, false));
+        v.push_back(rot(1, true));
+        std::vector<int> odd;
+        for (int i = 1; i < T; i += 2) odd.push_back(i);
+        for (int i = 0; i < T; i += 2) odd.push_back(i);
+        v.push_back(odd);
         std::sort(v.begin(), v.end());
         v.erase(std::unique(v.begin(), v.end()), v.end());
     }
@@ -286,6 +349,29 @@ static void report_conflict(const Scn &s, int T, const std::string &sched, const
 
 struct Tot { long long states = 0, trans = 0, nontriv = 0, schedules = 0, accesses = 0; std::set<u64> outcomes; };
 
+static void serial_pass(const Scn &s, bool th, Tot &tot);
+// The runtime may grant a parallel region FEWER threads than requested (num_threads and
+// omp_set_num_threads are upper bounds: nested regions, thread limits, dynamic adjustment).
+// Every scenario is therefore also run with the granted team clamped to 1, 2 and 3 members.
+static void granted_pass(const Scn &s, const Exec &ref, Tot &tot)
+{
+    auto args_ = team_args(s, false);
+    int T = *std::max_element(args_.begin(), args_.end());
+    for (int cap : {1, 2, 3})
+    {
+        ts::set_team_cap(cap);
+        ts::set_order_fn(nullptr);
+        Exec x = execute(s, T);
+        tot.states++;
+        tot.trans += (long long)x.regions.size();
+        tot.nontriv++;
+        std::string sched = fmt("order=identity granted=%d", cap);
+        for (auto &c : x.conflicts) { report_conflict(s, T, sched, c); break; }
+        if (x.out != ref.out)
+            rep().viol(fmt("C12.team-size-dependent.%s", kname[s.kind]), scnstr(s, T) + " " + sched, fmt("output differs from the single-member execution when the runtime grants %d member(s) instead of the %d requested", cap, T));
+    }
+    ts::set_team_cap(128);
+}
 static void serial_pass(const Scn &s, bool th, Tot &tot)
 {
     ts::set_mode(ts::SERIAL);
@@ -295,8 +381,8 @@ static void serial_pass(const Scn &s, bool th, Tot &tot)
     for (int T : team_args(s, th))
     {
         int Teff = T < 1 ? 1 : T;
-        auto ords = orders(std::min(Teff, 8));
-        if (Teff > 8) ords = {std::vector<int>()}; // identity + reversed for the big teams
+        auto ords = orders(std::min(Teff, 13));
+        if (Teff > 13) ords = {std::vector<int>()}; // identity + reversed for the big teams
         for (size_t oi = 0; oi < ords.size(); oi++)
         {
             std::vector<int> o = ords[oi];
@@ -318,7 +404,7 @@ static void serial_pass(const Scn &s, bool th, Tot &tot)
             if (x.out != ref.out)
                 rep().viol(fmt("C12.order-dependent.%s", kname[s.kind]), scnstr(s, T) + " " + sched, "output differs from the single-member execution");
         }
-        if (Teff > 8)
+        if (Teff > 13)
         {
             ts::set_order_fn([&](int, int TT) { std::vector<int> r(TT); for (int i = 0; i < TT; i++) r[i] = TT - 1 - i; return r; });
             Exec x = execute(s, T);
@@ -328,6 +414,7 @@ static void serial_pass(const Scn &s, bool th, Tot &tot)
             if (x.out != ref.out) rep().viol(fmt("C12.order-dependent.%s", kname[s.kind]), scnstr(s, T) + " order=reversed", "output differs from the single-member execution");
         }
     }
+    granted_pass(s, ref, tot);
 }
 
 // preemption-bounded exploration of ONE region (deviations elsewhere are not taken)
@@ -464,8 +551,16 @@ static int run_one(const Args &args)
             for (int i = 0; i < TT; i++) r[i] = rev ? TT - 1 - i : i;
             return r;
         });
+        if (m.count("granted")) ts::set_team_cap((int)cu(m, "granted"));
         Exec x = execute(s, T);
-        std::string sched = "order=" + cs(m, "order");
+        ts::set_team_cap(128);
+        std::string sched = "order=" + cs(m, "order") + (m.count("granted") ? " granted=" + cs(m, "granted") : "");
+        if (m.count("granted") && x.out != single.out)
+        {
+            rep().viol(fmt("C12.team-size-dependent.%s", kname[s.kind]), scnstr(s, T) + " " + sched, "output differs when the runtime grants fewer members than requested");
+            rep().flush();
+            return 0;
+        }
         for (auto &c : x.conflicts) { report_conflict(s, T, sched, c); break; }
         if (x.out != single.out) rep().viol(fmt("C12.order-dependent.%s", kname[s.kind]), scnstr(s, T) + " " + sched, "output differs from the single-member execution");
     }
